@@ -7,6 +7,7 @@ stdin : {"cases": [case, ...]}
                       "set": [[idx,val],...]  (sparse: assignment order)  |  "vals": [v,...] (dense, one per edge)}],
           "cfg": [complete_faces_from_cells, complete_edges_from_faces], "dim": null|0..3,
           "routes": ["list"|"tuple"|"numpy"|"append"|"from_arrays", ...], "rewraps": k,
+          "edits": [[edit,...] per rewrap]  (applied to RawMeshData(mesh) before it is built again; see apply_edit),
           "script": [[query, args...], ...]}
 stdout: '@@JSON ' + {"cases": [ {route: {"stages": [obs0, obs1, ...], "script": [answers]} | {"crash": ...}} ]}
   obs = {"err": ExceptionClassName} |
@@ -120,6 +121,31 @@ def build_raw(case, route):
             for i, v in a["set"]:
                 at[i] = cv(v)
     return r
+
+
+def apply_edit(raw, e, route):
+    """one edit of a re-wrapped mesh: ["clear_fc"|"clear_cc"|"clear_cf"|"clear_edges"|"clear_faces"|"clear_cells"] |
+    ["add_vertex", [x,y,z]] | ["add_edge"|"add_face"|"add_cell", row] | ["set_face"|"set_cell", i, row] (index i mod len) |
+    ["pop_face"|"pop_cell"]"""
+    k = e[0]
+    cont = {"fc": "face_corners", "cc": "cell_corners", "cf": "cell_faces", "edges": "edges", "faces": "faces",
+            "cells": "cells", "edge": "edges", "face": "faces", "cell": "cells"}
+    if k.startswith("clear_"):
+        getattr(raw, cont[k[6:]]).clear()
+    elif k == "add_vertex":
+        raw.vertices.append([float(x) for x in e[1]])
+    elif k.startswith("add_"):
+        getattr(raw, cont[k[4:]]).append(conv_rows([e[1]], route)[0])
+    elif k.startswith("set_"):
+        c = getattr(raw, cont[k[4:]])
+        if len(c):
+            c[e[1] % len(c)] = conv_rows([e[2]], route)[0]
+    elif k.startswith("pop_"):
+        c = getattr(raw, cont[k[4:]])
+        if len(c):
+            c._data.pop()
+    else:
+        raise ValueError(e)
 
 
 def canon(r):
@@ -236,9 +262,13 @@ def run_route(case, route):
     except Exception as ex:
         stages.append({"err": type(ex).__name__, "msg": str(ex)[:120]})
         return {"stages": stages, "script": []}
-    for _ in range(int(case.get("rewraps", 0))):
+    edits = case.get("edits") or []
+    for k in range(int(case.get("rewraps", 0))):
         try:
-            m = _instanciate_raw_mesh_data(RawMeshData(m), None if route == "from_arrays" else case.get("dim"))
+            raw = RawMeshData(m)
+            for e in (edits[k] if k < len(edits) else []):
+                apply_edit(raw, e, "list" if route == "from_arrays" else route)
+            m = _instanciate_raw_mesh_data(raw, None if route == "from_arrays" else case.get("dim"))
             stages.append(observe(m))
         except Exception as ex:
             stages.append({"err": type(ex).__name__, "msg": str(ex)[:120]})
